@@ -9,6 +9,7 @@
  *   VFAULT_K      k >= 1                           the k-th matching call fails (0 / unset: none)
  *   VFAULT_ERRNO  number                           errno delivered (default 5 = EIO)
  *   VFAULT_STICKY 1                                every matching call from the k-th on fails
+ *   VFAULT_ONLY   name                             inject only in the process whose executable has this basename
  *   VFAULT_LOG    path                             append one line per read/write/fsync/close on a
  *                                                  non-stderr fd:  "<op> <fd> <req> <ret> <errno>\n"
  * A failed call does not reach the kernel (returns -1 with errno set).
@@ -58,6 +59,21 @@ __attribute__((constructor)) static void vfault_init(void) {
       int hi = (int)syscall(SYS_fcntl, fd, F_DUPFD_CLOEXEC, 200);
       if (hi >= 0) { syscall(SYS_close, fd); fd = hi; }
       log_fd = fd;
+    }
+  }
+  /* VFAULT_ONLY=<basename>: stay passive (and keep the environment for the exec'ed program) unless this
+     process runs that executable: lets the injector pass through launchers such as valgrind or env */
+  if ((s = getenv("VFAULT_ONLY"))) {
+    char exe[4096];
+    ssize_t n = readlink("/proc/self/exe", exe, sizeof exe - 1);
+    const char *base;
+    if (n < 0) n = 0;
+    exe[n] = 0;
+    base = strrchr(exe, '/');
+    base = base ? base + 1 : exe;
+    if (strcmp(base, s)) {
+      if (log_fd >= 0) { syscall(SYS_close, log_fd); log_fd = -1; }
+      return;
     }
   }
   unsetenv("LD_PRELOAD");
